@@ -192,3 +192,21 @@ Proof. vm_compute. split; reflexivity. Qed.
 Example C02_refuted_no_staging :
   observe cfg_no_staging p_ret_frame = VFault.
 Proof. vm_compute. reflexivity. Qed.
+
+(* A nested row that kept the frame allocator under a promoted parent (the invariant's `nothing stored
+   points into the frame` is violated, as by a promote that moves nested rows instead of rebuilding them):
+   the row's buffer grows on the frame inside the loop body and the iteration reset reclaims it.  The
+   empty row itself is harmless until it grows; re-promoting the variable (b get b) first repairs it. *)
+Example C02_refuted_frame_row_under_promoted_parent :
+  ~ MemInv st_frame_row /\
+  run cfg_repaired st_frame_row [ORead 0; OShout] <> MFault /\
+  run cfg_repaired st_frame_row p_push_row_in_loop = MFault /\
+  (exists st, run cfg_repaired st_frame_row ([ORead 0; OAssign 0] ++ p_push_row_in_loop) = MOk st /\
+     map (erase (m_heap st)) (m_out st) = [Some (VArr [VArr [VNum (of_Z 7)]])]).
+Proof.
+  split.
+  - intros H. pose proof (inv_nf _ H) as Hnf. inversion Hnf as [|? ? Hv _]; subst.
+    inversion Hv as [|? ? _ Hrest]; subst. inversion Hrest as [|? ? Hrow _]; subst. apply Hrow. reflexivity.
+  - split; [vm_compute; discriminate|]. split; [vm_compute; reflexivity|].
+    eexists. vm_compute. split; reflexivity.
+Qed.
